@@ -727,7 +727,8 @@ impl Prop for C03 {
         };
         out.nontrivial = !c.pristine && input.len() >= gate;
         let depth = max_depth(&input);
-        let r = if depth > 2000 && std::env::var("PV_NO_ISOLATE").is_err() {
+        let isolate_all = std::env::var("PV_ISOLATE_ALL").is_ok();
+        let r = if (depth > 2000 || isolate_all) && std::env::var("PV_NO_ISOLATE").is_err() {
             out.label("isolated-child");
             run_isolated(c)
         } else {
